@@ -146,6 +146,13 @@ def _is_abort(e):
     return type(e).__name__ in ("SchedAbort", "Deadlock", "StepBudget")
 
 
+_INSTALLED = [False]
+
+
+def is_installed() -> bool:
+    return _INSTALLED[0]
+
+
 @contextlib.contextmanager
 def installed():
     """Wrap the mechanism methods named in properties.jsonl (and their neighbours) — class attributes, restored on exit."""
@@ -388,7 +395,11 @@ def installed():
             try:
                 orig(self, message)
             except BaseException as e:
-                rec[1] = f"exc:{type(e).__name__}"
+                if isinstance(e, AssertionError) or _is_abort(e) or hs:
+                    rec[1] = f"exc:{type(e).__name__}"
+                else:                                   # pickling / size / OS error after the rewrite: nothing was sent
+                    rec[0] = "outfail" + rec[0][3:]
+                    rec[1] = "exc:send-failed"
                 raise
             finally:
                 self._sock = cap._s
@@ -501,9 +512,11 @@ def installed():
         return f
     wrap(R._RpcThread, "_check_and_get_method", mk_check)
 
+    _INSTALLED[0] = True
     try:
         yield
     finally:
+        _INSTALLED[0] = False
         C.os, M.os = saved_os
         for cls, name, orig in reversed(saved):
             setattr(cls, name, orig)
